@@ -472,6 +472,15 @@ def run(ctx: Ctx):
         # batch size: usually 8; regularly exactly the number of nodes (a square batch) and its neighbours
         B = [8, 8, n, 8, n + 1, max(n - 1, 1), 1, 2][(t // 8) % 8]
         ys = np.sort(rng.uniform(0, 1, n)) + np.arange(n) * 1e-6
+        # the ordinates are any numbers: increasing (what the library's own samplers pass), decreasing, neither, negative
+        yk = (t // 8) % 5
+        if yk == 1:
+            ys = ys[::-1].copy()
+        elif yk == 2:
+            ys = rng.uniform(-1, 1, n)
+        elif yk == 3:
+            ys = -ys
+        ctx.count(("vec_ordinates_increasing", "vec_ordinates_decreasing", "vec_ordinates_unordered", "vec_ordinates_negative", "vec_ordinates_increasing")[yk])
         rows, xq = [], []
         for _ in range(B):
             inc = rng.uniform(0, 1, n) * (rng.uniform(0, 1, n) < 0.6)     # zeros make plateaux
